@@ -58,6 +58,20 @@ int strcasecmp(const char *a, const char *b)
 }
 #endif
 
+char *strstr(const char *hay, const char *needle)
+{
+	size_t i, j;
+
+	for (i = 0;; i++) {
+		for (j = 0; needle[j] && hay[i + j] == needle[j]; j++)
+			;
+		if (!needle[j])
+			return (char *)hay + i;
+		if (!hay[i])
+			return (char *)0;
+	}
+}
+
 size_t strcspn(const char *s, const char *reject)
 {
 	size_t i = 0;
